@@ -179,7 +179,15 @@ func checkC11(w *World, r *Report) {
 		for _, c := range d.specialCalls[f] {
 			facts := factsAtBlock(c.Block())
 			hasFlag, hasMethod, hasLen := false, f.Name() != "autoOptions", false
+			methodDependent := ""
 			for _, ft := range facts {
+				if bo, ok := ft.Cond.(*ssa.BinOp); ok && f.Name() == "noMethod" {
+					for _, side := range []ssa.Value{bo.X, bo.Y} {
+						if _, fld, ok := loadedField(side); ok && fld.Name() == "Method" && fld.Pkg() != nil && fld.Pkg().Path() == "net/http" {
+							methodDependent = fmt.Sprintf("the call is reached only when (%s) is %v [%s]", bo.String(), ft.Val, w.Pos(bo.Pos()))
+						}
+					}
+				}
 				if _, fld, ok := loadedField(ft.Cond); ok && fld == flagVar && ft.Val {
 					hasFlag = true
 				}
@@ -201,6 +209,10 @@ func checkC11(w *World, r *Report) {
 			}
 			ru3.Check("gate of Router."+f.Name(), w.Pos(c.Pos()), "call dominated by its option flag (and Method == OPTIONS for the options handler) and by a non-empty method list", hasFlag && hasMethod && hasLen,
 				fmt.Sprintf("flag %s=%v methodIsOPTIONS=%v nonEmptyAllow=%v", flag, hasFlag, hasMethod, hasLen))
+			if f.Name() == "noMethod" {
+				ru3.Check("method independence of Router.noMethod", w.Pos(c.Pos()), "the 405 branch is not conditioned on the request method: an OPTIONS request falls through to it when automatic OPTIONS replies are off", methodDependent == "",
+					orDefault(methodDependent, "no dominating test of Request.Method"))
+			}
 		}
 	}
 
